@@ -21,6 +21,7 @@ func c05(c *eng.Ctx, r *eng.Report) {
 		"R5.4 the state commit (account trie then node database, both error-checked) precedes the head update; " +
 		"R5.5 every removeFromCommonAncestor call is guarded by the chain-weight comparison with the right operand roles (coming vs local, local competitor taken at the fork point); " +
 		"R5.6 transactions are marked executed before the head moves and unmarked on every successful removal, UnMarkExecuted deletes the executed record before it re-adds the transaction, and the pending container takes the re-added transaction unless it is full; R5.8 the header cache that height lookups read is evicted by remove(); R5.7 block verification precedes insertion and checkStates compares state, receipt and tx roots. " +
+		"R5.10 the executed marks of a removed block stay removed: the pool's write batch, which lives as long as the pool, is Reset() after every Write() on every path of MarkExecuted — a batch that keeps its content writes the removed block's marks again with the next block, after UnMarkExecuted deleted them, and verifyBlock then refuses every later block carrying one of those transactions; " +
 		"R5.9 the in-memory head pointer and the head record on disk move together: a function that assigns blockChain.latestBlock writes the head record (heightDB key latestBlockKey) before the assignment or on every path from it to a return, start-up loading excepted; " +
 		"R5.3 (content) an intent mark carries the whole block — what is put under a mark key is the output of MarshalBlock and what recovery hands to remove() is the UnMarshalBlock of what it read — because remove() needs the transactions to roll the executed marks back. " +
 		"Not decided: that every intermediate crash state is repaired (needs fault injection), reachability of the head from genesis as a data invariant, disk errors."
@@ -33,6 +34,7 @@ func c05(c *eng.Ctx, r *eng.Report) {
 	c05Verify(c, r)
 	c05HeaderCache(c, r)
 	c05HeadRecord(c, r)
+	batchResetAs(c, r, "R5.10", "service", 2)
 	c05MarkContent(c, r)
 	// the second half of R5.6: what UnMarkExecuted does with a removed block's transactions (shared with C17)
 	c17UnmarkAs(c, r, "R5.6")
